@@ -44,8 +44,8 @@ func def(id, level, rule string, fams ...familyPlan) {
 func init() {
 	nt := " A run is non-trivial when at least one injected fault (or, for fault-free families, one scenario stimulus) fell inside the window the property cares about and the behaviour under test was actually reached (per-family probe); runs are distinct by the hash of their abstract-state trajectory."
 	def("C01", "exploration", "seeded scenarios of family 'switch': cluster shape/config swarm, GTID history, one switch request of each kind, per-call SQL/ZK faults, node losses."+nt, familyPlan{"switch", 260, 4000, false})
-	def("C02", "exploration", "family 'singlefault': converged semi-sync cluster, exactly one fault (kind x target x instant x duration) or one manual switchover, then heal; ack-linearity monitor + canonical final state."+nt, familyPlan{"singlefault", 240, 4000, false})
-	def("C03", "exploration", "engine B family 'lock' (2-4 real zkDCS clients, acquire/release/idle with connection faults and expiries) + engine A act-under-lock monitors in families 'switch' and 'crashpoints' (manager cut from ZooKeeper at every call boundary of a switchover)."+nt, familyPlan{"lock", 120, 2500, false}, familyPlan{"crashpoints", 280, 2800, false}, familyPlan{"switch", 60, 1200, false})
+	def("C02", "exploration", "family 'singlefault': converged semi-sync cluster, exactly one fault (kind x target x instant x duration) or one manual switchover, then heal; ack-linearity monitor + canonical final state."+nt, familyPlan{"singlefault", 320, 4000, false})
+	def("C03", "exploration", "engine B family 'lock' (2-4 real zkDCS clients, acquire/release/idle with connection faults and expiries) + engine A act-under-lock monitors in families 'switch' and 'crashpoints' (manager cut from ZooKeeper at every call boundary of a switchover)."+nt, familyPlan{"lock", 120, 2500, false}, familyPlan{"crashpoints", 360, 2800, false}, familyPlan{"switch", 60, 1200, false})
 	def("C04", "exploration", "family 'membership': scripted membership/health transitions with the manager crashed after, or a single call failing at, the k-th external call of the reacting iteration (k enumerated from a pilot run of the same seed); plus family 'switch' (the invariants after failed, rejected and completed switchovers)."+nt, familyPlan{"membership", 600, 6000, false}, familyPlan{"switch", 160, 3000, false})
 	def("C05", "exploration", "family 'gates': product of configuration switches, maintenance, pending request, master condition, replica states, active-list contents, last-switch age; reference gate predicate at each creation of switch{cause:auto}."+nt, familyPlan{"gates", 220, 3300, false})
 	def("C06", "exploration", "family 'lifecycle': CLI / worker / automatic initiators, long-failing attempts, aborts, attempt limits and timeouts; history check over switch / last_switch / last_rejected_switch."+nt, familyPlan{"lifecycle", 140, 2500, false})
